@@ -61,10 +61,6 @@ Fixpoint no_write1 (s : step) : bool :=
   end.
 Definition no_write (l : list step) : bool := forallb no_write1 l.
 
-(* read-only methods that nevertheless write through the live context (finding C09-1); a method that is fixed
-   simply stops needing this exemption *)
-Definition known_unjournaled : list string := ["delegationRewards"%string].
-
 Definition expected_guards : list guard := [GInputLen; GLookup; GReadonly; GDisabled; GDispatch].
 
 Definition str_suffix (suf s : string) : bool :=
@@ -77,11 +73,10 @@ Lemma table_writes_journaled :
   forallb (fun m => pm_readonly m || (Z.eqb (pm_actions m) 1 && negb (pm_outer_ctx m))) methods = true.
 Proof. vm_compute. reflexivity. Qed.
 
-(* a method declared read-only starts no action and only reads — except the listed ones *)
+(* a method declared read-only starts no action and only reads the live context (work on a CacheContext branch
+   that is never written back counts as reading) *)
 Lemma table_readonly_pure :
-  forallb (fun m => negb (pm_readonly m) ||
-                    (Z.eqb (pm_actions m) 0 &&
-                     (no_write (pm_steps m) || existsb (String.eqb (pm_name m)) known_unjournaled))) methods = true.
+  forallb (fun m => negb (pm_readonly m) || (Z.eqb (pm_actions m) 0 && no_write (pm_steps m))) methods = true.
 Proof. vm_compute. reflexivity. Qed.
 
 (* W2 for the table, on every path through every state-changing closure *)
@@ -93,7 +88,8 @@ Proof. vm_compute. reflexivity. Qed.
    this order; every error leaves through PackRetErr* with a non-nil error (the EVM then reverts the frame) *)
 Lemma table_guards :
   staking_run_guards = expected_guards /\ crosschain_run_guards = expected_guards /\
-  staking_errors_packed = true /\ crosschain_errors_packed = true.
+  staking_errors_packed = true /\ crosschain_errors_packed = true /\
+  staking_guards_flat = true /\ crosschain_guards_flat = true.
 Proof. repeat split. Qed.
 
 (* the acting identity is contract.Caller(); evm.Origin only ever flows into event constructors *)
